@@ -15,6 +15,7 @@ from .c01 import score_ballots, score_totals, straddle
 
 ID = "C05"
 BUDGET = {"quick": 40000, "thorough": 400000}
+FUZZ = {"thorough": 6000}  # coverage-guided stage: libFuzzer runs per worker (x16), see vk/fuzz.py
 EPS = Fraction(1, 10**6)
 RULE = (
     "Hypothesis: class in {Rating, Approval, Limited, Cumulative, BlocPlurality, GeneralRating} x "
